@@ -8,6 +8,8 @@ Three Gallina functions are emitted into coq/gen/K4.v:
                        emitted `d.get(...)` lines read, in order, as a function of the options)
   allowed_keys      <- CodeBuilder._add_unpack_method_lines            (slice: the set subtracted
                        from `set(d.keys())` under forbid_extra_keys)
+  get_config        <- CodeBuilder.get_config                          (whole function; classes are objects with
+                       an MRO of dictionaries, see PyK_alias.v)
 
 The two slices are *structure checked*: the slicer recognises exactly the statement shapes it
 knows (add_line of an f-string `X = d.get(<key>, MISSING)`, `with self.indent("if X is MISSING:")`,
@@ -146,6 +148,12 @@ class AliasTranslator(FnTranslator):
         s, rest = stmts[0], stmts[1:]
         if isinstance(s, ast.If):
             self._rest = list(rest)
+            # a variable bound by a top-level assignment in *both* branches is bound after the join
+            def top_assigned(ss):
+                return {t.id for x in ss if isinstance(x, ast.Assign) for t in x.targets if isinstance(t, ast.Name)}
+            if s.orelse and not self.always_exits(s.body) and not self.always_exits(s.orelse):
+                for nm in top_assigned(s.body) & top_assigned(s.orelse):
+                    self.locals.add(nm)
             return super().block(stmts, k)
         if isinstance(s, ast.For):
             if not isinstance(s.target, ast.Name):
@@ -432,6 +440,51 @@ def gen_get_field_alias(src, module) -> str:
     return translate_kernel(src, k, module, translator=AliasTranslator)
 
 
+# ---------------------------------------------------------------------------
+# CodeBuilder.get_config: which Config class the builder works with
+# ---------------------------------------------------------------------------
+
+class ConfigTranslator(AliasTranslator):
+    """+ class objects: getattr(cls, name, default) walks the MRO, cls.__dict__, issubclass, type(name, bases, {})"""
+
+    def expr(self, e):
+        key = ast.unparse(e)
+        if key in self.k.abstr:
+            return [], self.k.abstr[key]
+        if isinstance(e, ast.Attribute) and e.attr == "__dict__" and isinstance(e.value, ast.Name) and e.value.id in self.locals:
+            t = self.fresh()
+            return [(t, f'k_getattr2 v_{e.value.id} (KStr "__dict__")')], t
+        if isinstance(e, ast.Dict):
+            if e.keys:
+                raise Unsupported("non-empty dict literal")
+            return [], "(KDict [])"
+        return super().expr(e)
+
+    def call(self, e):
+        f = ast.unparse(e.func)
+        if f == "getattr" and len(e.args) == 3 and not e.keywords:
+            p1, a = self.expr(e.args[0]); p2, b = self.expr(e.args[1]); p3, c = self.expr(e.args[2])
+            return p1 + p2 + p3, f"(k_cls_getattr {a} {b} {c})"
+        if f == "issubclass" and len(e.args) == 2 and not e.keywords:
+            p1, a = self.expr(e.args[0]); p2, b = self.expr(e.args[1])
+            return p1 + p2, f"(KBool (k_issubclass {a} {b}))"
+        if f == "type" and len(e.args) == 3 and not e.keywords:
+            p1, a = self.expr(e.args[0]); p2, b = self.expr(e.args[1]); p3, c = self.expr(e.args[2])
+            t = self.fresh()
+            return p1 + p2 + p3 + [(t, f"k_type3 {a} {b} {c}")], t
+        return super().call(e)
+
+
+def gen_get_config(src, module) -> str:
+    fn = find_function(module, "CodeBuilder.get_config")
+    if [a.arg for a in fn.args.args] != ["self", "cls", "look_in_parents"]:
+        raise Unsupported("signature of get_config changed")
+    k = Kernel(func="CodeBuilder.get_config", coq_name="get_config",
+               params=["a_self_cls", "a_BaseConfig", "v_cls", "v_look_in_parents"],
+               abstr={"self.cls": "a_self_cls", "BaseConfig": "a_BaseConfig"})
+    return translate_kernel(src, k, module, translator=ConfigTranslator)
+
+
 def gen() -> str:
     src = os.path.join(REPO, SRC_REL)
     module = ast.parse(open(src).read())
@@ -440,7 +493,8 @@ def gen() -> str:
     text += "From Verif Require Import PyK_alias.\n\n"
     text += gen_get_field_alias(src, module) + "\n"
     text += gen_key_plan(module) + "\n"
-    text += gen_allowed_keys(module)
+    text += gen_allowed_keys(module) + "\n"
+    text += gen_get_config(src, module)
     return text
 
 
